@@ -14,7 +14,7 @@ REQUIRED = ['getNBest_scale', 'plurality_scale', 'highestAverages_scale', 'sumVa
             'rankedToPositional_linear', 'approvalToSimple_linear', 'rankedToCondorcet_linear', 'positionalRule_scale',
             'approvalRule_scale', 'condorcetEv_scale', 'condorcetSet_scale', 'rankedToCondorcetVotes_linear',
             'condorcetRule_scale', 'condorcetSetRule_scale', 'rankedToCondorcetVotesNoBottom_linear', 'condorcetRuleNoBottom_scale',
-            'condorcetSetRuleNoBottom_scale', 'benham_scale', 'tideman_scale', 'tidemanN_scale',
+            'condorcetSetRuleNoBottom_scale', 'noquota_homogeneousSTV', 'benham_scale', 'tideman_scale', 'tidemanN_scale',
             'spav_scale', 'pav_scale', 'pav_fresh_scale',
             'scoreVoting_scale', 'scoreAggregate_scale', 'majorityJudgmentPlus_scale', 'star_scale',
             'bucklin_scale', 'bucklinWhole_scale', 'preferenceAddition_scale', 'bucklinSeats_scale', 'oklahoma_scale',
@@ -32,7 +32,7 @@ PROVED_FAMILIES = ['plurality', 'ha_d_hondt', 'ha_sainte_lague', 'ha_imperiali',
                    'condorcet_winner', 'smith_set', 'schwartz_set', 'benham', 'tideman_alternative',
                    'approval_pav', 'approval_spav',
                    'score_mean', 'score_sum0', 'score_median', 'majority_judgment_plus', 'star', 'bucklin',
-                   'oklahoma', 'bucklin_whole', 'oklahoma_whole', 'baldwin', 'stv_gregory_hare', 'stv_gregory_hare_strict', 'stv_gregory_imperiali',
+                   'oklahoma', 'bucklin_whole', 'oklahoma_whole', 'baldwin', 'stv_gregory_hare', 'stv_gregory_hare_strict', 'stv_gregory_imperiali', 'stv_gregory_noquota',
                    'pure_proportionality', 'pure_proportionality_constrained']
 PROVED_FAMILIES += [f + '_sparse' for f in PROVED_FAMILIES if f.startswith('condorcet_') or f in ('smith_set', 'schwartz_set')]
 # proved for a part of the family's parameter space only: the rest stays listed as unproved
@@ -167,7 +167,7 @@ def _init_unproved():
 
 _init_unproved()
 NAME_MODES = ['str', 'int0', 'empty0', 'person', 'tuple']
-REQUIRED_COUNTERS = (['score_fraction_counts', 'score_large_factor', 'scale', 'near_tie', 'equal_rational', 'beyond_2^53', 'modelled', 'qd_options', 'qd_policy_subtract', 'qd_prev_gains', 'qd_caps', 'ha_options', 'ha_prev_gains', 'ha_caps', 'ha_prev_at_least_votes', 'equal_quotients_three_or_more', 'mj_all_share_the_median', 'mj_step_size_decides',
+REQUIRED_COUNTERS = (['score_fraction_counts', 'score_large_factor', 'scale', 'near_tie', 'equal_rational', 'beyond_2^53', 'modelled', 'qd_options', 'qd_policy_subtract', 'qd_prev_gains', 'qd_caps', 'ha_options', 'ha_prev_gains', 'ha_caps', 'ha_prev_at_least_votes', 'equal_quotients_three_or_more', 'mj_all_share_the_median', 'mj_step_size_decides', 'irv_totals_around_2^63',
                       'lr_equal_remainders', 'pure_total_below_one', 'approval_later_seat_level', 'threshold_boundary', 'coef_tie', 'coef_as_decimal', 'coef_as_float', 'exact_half_or_quota', 'odd_total_half', 'even_factor']
                      + ['m:' + f for f in PROVED_FAMILIES])      # every proved family is also run through its Lean model
 RULE = ('every scale-free evaluator family of the quantifier (plurality, divisor methods, largest remainder with exact quotas, '
@@ -385,11 +385,22 @@ def generate(rng, tier):
                'prof': [[i, num_str(v)] for i, v in enumerate(vals)], 'n': n, 'prev': prev, 'max': caps, 'k': str(k),
                '_tags': ['scale', 'qd_options', 'qd_policy_' + pol] + (['qd_prev_gains'] if prev else []) + (['qd_caps'] if caps else []) +
                         (['beyond_2^53'] if k > 2 ** 53 else [])}
+    # instant run-off (no quota): ordinary close three-way profiles at SEVERAL magnitudes around and beyond 2^63 and 2^64 (a finite
+    # stand-in for the absent quota is "reached" there)
+    for f in F:
+        if f.name == 'stv_gregory_noquota':
+            for t in range(24 if tier == 'quick' else 400):
+                a, b, c = rng.randint(30, 36), rng.randint(30, 36), rng.randint(28, 34)
+                prof = [[[0, 1, 2], str(a)], [[2, 1, 0], str(b)], [[1, 2, 0], str(c)]]
+                rng.shuffle(prof)
+                k = [2 ** 57, 2 ** 58 + 1, 10 ** 18, 2 ** 62 + 3, 10 ** 19, 10 ** 20 + 7, 10 ** 30, 10 ** 40 + 3][t % 8]
+                yield {'op': 'scale', 'family': f.name, 'prof': prof, 'n': rng.choice([1, 1, 2]), 'k': str(k),
+                       '_tags': ['scale', 'irv_totals_around_2^63', 'beyond_2^53']}
     # exactly half is not a majority, exactly the quota is the quota - at magnitudes where a float quota is off by 10^9:
     # Bucklin/Oklahoma: the first choice of exactly half of the voters, everybody's second choice wins in round 2;
     # STV-Gregory-Hare: a candidate holding exactly the Hare quota on first preferences
     for f in F:
-        if f.name in ('bucklin', 'oklahoma', 'bucklin_whole', 'oklahoma_whole', 'stv_gregory_hare', 'stv_gregory_hare_strict', 'stv_gregory_imperiali'):
+        if f.name in ('bucklin', 'oklahoma', 'bucklin_whole', 'oklahoma_whole', 'stv_gregory_hare', 'stv_gregory_hare_strict', 'stv_gregory_imperiali', 'stv_gregory_noquota'):
             for t in range(16 if tier == 'quick' else 160):
                 h = rng.randint(2, 9)
                 x = rng.randint(1, h - 1)
@@ -648,8 +659,8 @@ def model_line(case):
             f = f[:-len('_sparse')] if f.endswith('_sparse') else f
             name = CONDORCET_SETS.get(f) or f[len('condorcet_'):]
             return {'op': 'c11_condorcet', 'name': name, 'profile': prof, 'votes': pairwise_of(prof, ab), 'n': case['n'], 'bottom': ab}
-        if f in ('stv_gregory_hare', 'stv_gregory_hare_strict', 'stv_gregory_imperiali'):
-            return {'op': 'stv_eval', 'method': 'gregory', 'quota': 'imperiali' if f.endswith('imperiali') else 'hare',
+        if f in ('stv_gregory_hare', 'stv_gregory_hare_strict', 'stv_gregory_imperiali', 'stv_gregory_noquota'):
+            return {'op': 'stv_eval', 'method': 'gregory', 'quota': 'imperiali' if f.endswith('imperiali') else None if f.endswith('noquota') else 'hare',
                     'accept_equal': not f.endswith('_strict'), 'mandatory': False, 'step': -1,
                     'form': 'selector', 'votes': enc_stv(prof), 'n': case['n'], 'prev': [], 'max': [], 'draws': []}
         if f == 'bucklin' and case['n'] == 1 and 'one_seat' in case.get('_tags', ()):
